@@ -11,8 +11,8 @@
  *   spiftool_version_compare   (C17) both arguments C strings; any spif_cmp_t
  * Behaviour splits:
  *   on the header read: U_OF_READ = fgets delivered the header line; U_OF_EMPTY = fgets returned NULL
- *     (empty/unreadable file): the buffer handed to spif_str_new_from_ptr is then uninitialised — finding
- *     C11-open-file-empty;
+ *     (empty/unreadable file): the buffer handed to spif_str_new_from_ptr was then uninitialised — finding
+ *     C11-open-file-empty, fixed 175d51f: the function now returns NULL and closes the stream;
  *   on the header text: U_OF_DASH = the line that passed the magic check contains a '-' (always the case when
  *     "<" + program name + "-" fits the 30-byte `test` buffer, because the magic check compared that '-') and its
  *     first '>' , if any, comes after that '-' ("<name-version>").
